@@ -81,30 +81,19 @@ def run(ctx, chk):
                   "name (class.opname), result type, space, operands; `%id = ` present iff the instruction has a result id")
     from . import disx
     W = raw.where("disas_instruction", None, "disassemble.rs")
+    W = raw.where("disassemble", "Instruction", "disassemble.rs")
     for rid in (True, False):
         for rtype in (True, False):
-            inst = "disas_instruction(result id %s, result type %s)" % ("present" if rid else "absent", "present" if rtype else "absent")
-            try:
-                got = disx.line_format(ctx, rid, rtype)
-            except Anchor as ex:
-                chk.bad(R1, inst, "not analysable: %s" % ex, W, key="C07:line-shape")
-                continue
-            want = disx.expected_line(rid, rtype)
-            chk.check(R1, got == want, inst, "line is rendered as %s, expected %s" % (got, want), W, key="C07:line:%s:%s" % (rid, rtype), sample=str(got) if rid and rtype else None)
-    for n in (0, 1, 3):
-        inst = "Instruction::disassemble(%d operands)" % n
-        try:
-            r, ops = disx.inst_disassemble(ctx, n)
-            want = ("instr", ("inst",), ("str", " " if n else ""), ("joined", ("list", ops), ("str", " ")))
-            chk.check(R1, r == want, inst, "renders %s, expected all %d operands joined by a space after a%s separator" % (str(r)[:200], n, " one-space" if n else "n empty"),
-                      raw.where("disassemble", "Instruction", "disassemble.rs"))
-        except Anchor as ex:
-            chk.bad(R1, inst, "not analysable: %s" % ex, raw.where("disassemble", "Instruction", "disassemble.rs"))
-    fj = ctx.rspirv.fn(DIS, "disas_join")
-    tj = [show_stmt(s) for s in fj["body"][1]]
-    chk.check(R1, tj == ["insts.iter().map(|i| i.disassemble()).collect::<Vec<String>>().join(delimiter)"] or
-              (len(tj) == 1 and ".iter().map(|i| i.disassemble())" in tj[0] and tj[0].endswith(".join(delimiter)")), "disas_join:all-elements",
-              "disas_join is %s" % tj, raw.where("disas_join", None, "disassemble.rs"))
+            for n in (0, 1, 3):
+                inst = "Instruction::disassemble(result id %s, result type %s, %d operands)" % ("present" if rid else "absent", "present" if rtype else "absent", n)
+                try:
+                    got = disx.line(ctx, rid, rtype, n)
+                except Anchor as ex:
+                    chk.bad(R1, inst, "not analysable: %s" % ex, W, key="C07:line-shape")
+                    continue
+                want = disx.expected_line(rid, rtype, disx.operand_values(n))
+                chk.check(R1, got == want, inst, "line is rendered as %s, expected %s" % (got, want), W, key="C07:line:%s:%s:%d" % (rid, rtype, n),
+                          sample=str(got) if rid and rtype and n == 3 else None)
 
     R2 = chk.rule("S2-WALK", "Module::disassemble renders the header, every instruction of global_inst_iter() (OpConstant through the typed "
                   "renderer), and per function: def, parameters, per block label then every instruction (OpExtInst through the "
@@ -238,8 +227,9 @@ def run(ctx, chk):
         except Anchor as ex:
             chk.bad(R5, "disas_constant(%s)" % name, "not analysable: %s" % ex, WC_, key="C07:disas_constant-shape")
             continue
-        want = ("instr", ("inst",), ("str", " "), ("litbit", ("sym", "V0"), ("sym", "TYPE"))) if typed else ("generic",)
-        chk.check(R5, r == want, "disas_constant(%s)" % name, "renders %s, expected %s" % (str(r)[:200], want), WC_, key="C07:disas_constant:%s" % name)
+        got = disx.pieces(r) if not (isinstance(r, tuple) and r and r[0] == "panic") else r
+        want = disx.expected_line(True, rtype, [operand], rendered=[("litbit", ("sym", "V0"), ("sym", "TYPE"))]) if typed else [("generic",)]
+        chk.check(R5, got == want, "disas_constant(%s)" % name, "renders %s, expected %s" % (str(got)[:240], want), WC_, key="C07:disas_constant:%s" % name)
     try:
         tw = [p_ for p_ in walkx.module_disassemble(ctx, True) if isinstance(p_, tuple) and p_[1] == "typed-constant"]
         chk.check(R5, tw == [("text", "typed-constant", "CONSTANT", "TypeTracker", ("TYPE", "CONSTANT", "VARIABLE"))], "type-tracker-fed-from-types_global_values",
@@ -263,12 +253,13 @@ def run(ctx, chk):
             chk.bad(R6, inst, "not analysable: %s" % ex, WE, key="C07:extinst-shape")
             continue
         named = len(kinds) >= 2 and kinds[0] == "IdRef" and kinds[1] == "LiteralExtInstInteger" and have and resolved
+        got = disx.pieces(r) if not (isinstance(r, tuple) and r and r[0] == "panic") else r
         if named:
             items = [("dis", ops[0]), ("sym", "EXTNAME")] + [("dis", o) for o in ops[2:]]
-            want = ("instr", ("inst",), ("str", " "), ("join", items, ("str", " ")))
+            want = disx.expected_line(False, False, ops, rendered=items)
         else:
-            want = ("generic",)
-        chk.check(R6, r == want, inst, "renders %s, expected %s" % (str(r)[:260], str(want)[:200]), WE, key="C07:extinst")
+            want = [("generic",)]
+        chk.check(R6, got == want, inst, "renders %s, expected %s" % (str(got)[:260], str(want)[:200]), WE, key="C07:extinst")
     from . import extx
     WT_ = raw.where("track", "ExtInstSetTracker")
     for name, opcode, rid, ops, want in extx.track_cases():
